@@ -10,14 +10,14 @@ import time
 SCRATCH_ROOT = '/var/tmp'
 
 
-def run_verus(text, name, rlimit=None, extra_args=None, keep=None, timeout=1800):
+def run_verus(text, name, rlimit=None, extra_args=None, keep=None, timeout=1800, multiple_errors=8):
     d = tempfile.mkdtemp(prefix='specs-verif.%s.' % name, dir=SCRATCH_ROOT)
     try:
         path = os.path.join(d, name + '.rs')
         with open(path, 'w') as f:
             f.write(text)
         cmd = ['verus', name + '.rs', '--output-json', '--time', '--error-format=json',
-               '--triggers-mode', 'silent', '--multiple-errors', '8']
+               '--triggers-mode', 'silent', '--multiple-errors', str(multiple_errors)]
         if rlimit:
             cmd += ['--rlimit', str(rlimit)]
         if extra_args:
@@ -42,6 +42,9 @@ def run_verus(text, name, rlimit=None, extra_args=None, keep=None, timeout=1800)
 
 SEMANTIC = [
     ('postcondition not satisfied', 'postcondition'),
+    ('unable to prove post-condition of closure', 'closure postcondition'),
+    ('unable to prove', 'other-semantic'),
+    ('type invariant not satisfied', 'assertion'),
     ('precondition not satisfied', 'precondition'),
     ('assertion failed', 'assertion'),
     ('invariant not satisfied', 'loop invariant'),
@@ -119,6 +122,10 @@ def parse(res, g, unit_name):
             ob = '%s::lemma::%s' % (unit_name, lem) if lem else '%s::<spec-text>' % unit_name
         elif label and not label.startswith('req.'):
             ob = '%s::%s::%s' % (unit_name, fn, label)
+            # inherited trait postconditions carry their marker in the trait declaration (`trait.x.y`); the obligation of the
+            # implementing function is registered as `hint.trait.x.y`
+            if ob not in g.obligations and '%s::%s::hint.%s' % (unit_name, fn, label) in g.obligations:
+                ob = '%s::%s::hint.%s' % (unit_name, fn, label)
         else:
             ob = '%s::%s::safety' % (unit_name, fn)
         rendered = d.get('rendered') or msg
